@@ -145,4 +145,70 @@ Definition dual_spanning_df_b faces edges (T : list Z) : bool :=
 (* the whole edge table as a graph is connected *)
 Definition primal_connected_b (edges : list (Z * Z)) : bool := cut_connected_b edges (zrange (zlen edges)).
 
+(* ------------------------------------------------------------------ turning around a vertex; p = (face, local index) *)
+Definition fv (faces : list face) (p : Z * Z) : Z := znth (znth faces (fst p) []) (snd p) 0.        (* vertex of the corner *)
+Definition nv' (faces : list face) (p : Z * Z) : Z := znth (znth faces (fst p) []) ((snd p + 1) mod 3) 0. (* next vertex *)
+(* the corner of the same vertex in the face across the edge (vertex, next vertex) *)
+Definition stepp (faces : list face) (p : Z * Z) : option (Z * Z) :=
+  match direct_face faces (nv' faces p) (fv faces p) with
+  | Some d => Some (tF d, tJ d)
+  | None => None
+  end.
+
+(* the same with the half-edge table computed once *)
+Definition stepH (H : list ((Z * Z) * (Z * Z * Z))) (faces : list face) (p : Z * Z) : option (Z * Z) :=
+  match df_lookup H (nv' faces p) (fv faces p) with
+  | Some d => Some (tF d, tJ d)
+  | None => None
+  end.
+
+Fixpoint nodupP_b (l : list (Z * Z)) : bool :=
+  match l with [] => true | x :: r => negb (memP x r) && nodupP_b r end.
+Definition oriented_nodup_b (faces : list face) : bool := nodupP_b (dir_edges faces).
+(* an unordered pair of vertices has at most one edge id *)
+Definition joins_unique_b (edges : list (Z * Z)) : bool :=
+  let ids := zrange (zlen edges) in
+  forallb (fun e => forallb (fun e' => negb (joins edges e' (fst (ends edges e)) (snd (ends edges e))) || (e' =? e)) ids) ids.
+(* every edge of the table is a side of some face *)
+Definition table_sound_b (faces : list face) (edges : list (Z * Z)) : bool :=
+  let H := he_table faces in
+  forallb (fun e => match df_lookup H (fst (ends edges e)) (snd (ends edges e)),
+                          df_lookup H (snd (ends edges e)) (fst (ends edges e)) with
+                    | None, None => false | _, _ => true end) (zrange (zlen edges)).
+
+(* the corners (f, i) of vertex v *)
+Definition corners_of (faces : list face) (v : Z) : list (Z * Z) :=
+  flat_map (fun f => flat_map (fun i => if znth (znth faces f []) i 0 =? v then [(f, i)] else [])
+                              (zrange (zlen (znth faces f [])))) (zrange (zlen faces)).
+Fixpoint walkp H (faces : list face) (n : nat) (p : Z * Z) : list (Z * Z) :=
+  match n with
+  | O => []
+  | S n' => p :: match stepH H faces p with Some q => walkp H faces n' q | None => [] end
+  end.
+(* start at the corner nobody steps into (open fan), else anywhere *)
+Definition find_ring H (faces : list face) (v : Z) : list (Z * Z) :=
+  let C := corners_of faces v in
+  let targets := flat_map (fun x => match stepH H faces x with Some q => [q] | None => [] end) C in
+  match filter (fun c => negb (memP c targets)) C ++ C with
+  | [] => []
+  | s :: _ => walkp H faces (length C) s
+  end.
+Definition rposb (l : list (Z * Z)) (i : Z) : Z * Z := znth l i (0, 0).
+Definition ring_at_b H (faces : list face) (v : Z) (l : list (Z * Z)) : bool :=
+  nodupP_b l
+  && forallb (fun p => (0 <=? fst p) && (fst p <? zlen faces) && (0 <=? snd p) && (snd p <? zlen (znth faces (fst p) []))
+                       && (fv faces p =? v)) l
+  && forallb (fun p => memP p l) (corners_of faces v)
+  && forallb (fun i => match stepH H faces (rposb l i) with Some q => pair_eqb q (rposb l (i + 1)) | None => false end)
+             (zrange (zlen l - 1))
+  && match stepH H faces (rposb l (zlen l - 1)) with Some q => pair_eqb q (rposb l 0) | None => true end.
+Definition rings_b (faces : list face) : bool :=
+  let H := he_table faces in
+  forallb (fun v => ring_at_b H faces v (find_ring H faces v)) (used_vertices faces).
+
+(* the hypotheses on the input surface used by the border theorems, as one boolean: triangles with distinct vertices,
+   every directed edge once, one id per edge, every edge a side of a face, one ring or fan of corners per vertex *)
+Definition surface_ok_b (faces : list face) (edges : list (Z * Z)) : bool :=
+  tri_ok_b faces && oriented_nodup_b faces && joins_unique_b edges && table_sound_b faces edges && rings_b faces.
+
 Definition rank_of (l : list (Z * Z)) (f : Z) : Z := match assocP f l with Some r => r | None => -1 end.
